@@ -1,10 +1,16 @@
 //! Simulator-based checks over the real replica, block store and input channel.
+mod act;
+mod adv;
 mod c08;
 pub mod engine;
+mod monitors;
+mod props;
+mod sim;
 
 fn main() {
     let env = common::Env::from_args();
     let code = match env.property.as_str() {
+        "C01" => props::c01(&env),
         "C08" => c08::main(&env),
         p => {
             eprintln!("bftsim: unknown property {p}");
